@@ -153,6 +153,10 @@ func (cse *connectivityStateEvaluator) recordTransition(
 // subConnRef keeps reference to the real SubConn with its
 // connectivity state, affinity count and streams count.
 type subConnRef struct {
+	// mu guards subConn, lastResp and refreshCnt: they are written by the balancer
+	// callbacks and by call completions and read by concurrent picks and completions.
+	// It is a leaf lock: nothing else is locked while holding it.
+	mu          sync.Mutex
 	subConn     balancer.SubConn
 	stateSignal chan struct{} // This channel is closed and re-created when subConn or its state changes.
 	affinityCnt int32         // Keeps track of the number of keys bound to the subConn.
@@ -192,9 +196,25 @@ func (ref *subConnRef) deCallsInc() uint32 {
 }
 
 func (ref *subConnRef) gotResp() {
+	ref.mu.Lock()
 	ref.lastResp = time.Now()
-	atomic.StoreUint32(&ref.deCalls, 0)
 	ref.refreshCnt = 0
+	ref.mu.Unlock()
+	atomic.StoreUint32(&ref.deCalls, 0)
+}
+
+// getSubConn returns the current SubConn of the ref (it changes when the ref is refreshed).
+func (ref *subConnRef) getSubConn() balancer.SubConn {
+	ref.mu.Lock()
+	defer ref.mu.Unlock()
+	return ref.subConn
+}
+
+// respState returns the time of the last response and the number of refreshes since then.
+func (ref *subConnRef) respState() (time.Time, uint32) {
+	ref.mu.Lock()
+	defer ref.mu.Unlock()
+	return ref.lastResp, ref.refreshCnt
 }
 
 type gcpBalancer struct {
@@ -393,12 +413,14 @@ func (gb *gcpBalancer) getReadySubConnRef(boundKey string) (*subConnRef, bool) {
 }
 
 func (gb *gcpBalancer) getSubConnRoundRobin(ctx context.Context) *subConnRef {
-	if len(gb.scRefList) == 0 {
+	gb.mu.RLock()
+	empty := len(gb.scRefList) == 0
+	gb.mu.RUnlock()
+	if empty {
 		gb.newSubConn()
 	}
-	scRef := gb.scRefList[atomic.AddUint32(&gb.rrRefId, 1)%uint32(len(gb.scRefList))]
-
 	gb.mu.RLock()
+	scRef := gb.scRefList[atomic.AddUint32(&gb.rrRefId, 1)%uint32(len(gb.scRefList))]
 	if state := gb.scStates[scRef.subConn]; state == connectivity.Ready {
 		gb.mu.RUnlock()
 		return scRef
@@ -494,11 +516,13 @@ func (gb *gcpBalancer) UpdateSubConnState(sc balancer.SubConn, scs balancer.SubC
 		delete(gb.scRefs, oldSc)
 		delete(gb.scStates, oldSc)
 		gb.scRefs[sc] = scRef
+		scRef.mu.Lock()
 		scRef.subConn = sc
-		scRef.deCalls = 0
 		scRef.lastResp = time.Now()
-		scRef.refreshing = false
 		scRef.refreshCnt++
+		scRef.mu.Unlock()
+		atomic.StoreUint32(&scRef.deCalls, 0)
+		scRef.refreshing = false
 		// Affinity and fallback mappings must follow the subConnRef to its fresh SubConn.
 		for k, v := range gb.affinityMap {
 			if v == oldSc {
@@ -580,9 +604,6 @@ func (gb *gcpBalancer) UpdateSubConnState(sc balancer.SubConn, scs balancer.SubC
 // refresh initiates a new SubConn for a specific subConnRef and starts connecting.
 // If the refresh is already initiated for the ref, then this is a no-op.
 func (gb *gcpBalancer) refresh(ref *subConnRef) {
-	if ref.refreshing {
-		return
-	}
 	gb.mu.Lock()
 	defer gb.mu.Unlock()
 	if ref.refreshing {
